@@ -8,7 +8,7 @@
 //                       every (stored, expected) x 2 desired x spurious? for the compare_exchange forms): one JSON
 //                       line per (type, operation, cv-overload) with the number of mismatches and the first one
 // Every line of the file is one case:   <id> <type> <init> <nops> { <op> <vol> <spur> <mo> <a1> <a2> }*
-//   type  b i8 u8 i16 u16 i32 u32 i64 u64 p4 (int*) p8 (double*) f32 f64 flag
+//   type  b i8 u8 i16 u16 i32 u32 i64 u64 p4 (int*) p8 (double*) f32 f64 f80 (long double) flag
 //   values: decimal (two's complement as written for the type); floats: the bit pattern; pointers: byte offset
 //           into an arena
 //   vol   1 = call the volatile-qualified overload;  spur 1 = the fault layer is told to fail the weak CAS
@@ -100,8 +100,35 @@ struct Codec {  // integers, bool
     }
   }
 };
+// long double (x87 extended): the 80 value bits as one decimal number; the 6 padding bytes are written as zero
+template <>
+struct Codec<long double, void> {
+  static long double Parse(const std::string& s) {
+    unsigned __int128 b = 0;
+    for (char c : s) {
+      if (c >= '0' && c <= '9') {
+        b = b * 10 + static_cast<unsigned>(c - '0');
+      }
+    }
+    alignas(16) unsigned char raw[sizeof(long double)] = {};
+    std::memcpy(raw, &b, 10);
+    long double v;
+    std::memcpy(&v, raw, sizeof v);
+    return v;
+  }
+  static std::string Print(long double v) {
+    unsigned __int128 b = 0;
+    std::memcpy(&b, &v, 10);
+    std::string out;
+    do {
+      out.insert(out.begin(), static_cast<char>('0' + static_cast<int>(b % 10)));
+      b /= 10;
+    } while (b != 0);
+    return out;
+  }
+};
 template <typename T>
-struct Codec<T, std::enable_if_t<std::is_floating_point_v<T>>> {
+struct Codec<T, std::enable_if_t<std::is_floating_point_v<T> && !std::is_same_v<T, long double>>> {
   using B = std::conditional_t<sizeof(T) == 4, std::uint32_t, std::uint64_t>;
   static T Parse(const std::string& s) {
     B b = static_cast<B>(std::strtoull(s.c_str(), nullptr, 10));
@@ -194,6 +221,27 @@ void Apply(At& a, const Op& op, Out& out) {
   } else if (n == "xchg") {
     if (o1) C19_CALL(a.exchange(x1, Mo(o1)), va.exchange(x1, Mo(o1)));
     else C19_CALL(a.exchange(x1), va.exchange(x1));
+  } else if (n == "cesload") {
+    // the CAS-loop idiom: expected = load(); while (!compare_exchange_strong(expected, desired)) {}.  The padding
+    // bytes of `expected` (x87 long double: bytes 10..15) are poisoned: std::atomic compares the VALUE representation.
+    alignas(16) unsigned char raw[sizeof(T)];
+    {
+      T loaded = a.load();
+      std::memcpy(raw, &loaded, sizeof loaded);
+    }
+    if constexpr (std::is_same_v<T, long double>) {
+      std::memset(raw + 10, 0xAB, sizeof(T) - 10);
+    }
+    asm volatile("" : : "r"(raw) : "memory");   // the bytes are in memory exactly as written
+    T& e = *reinterpret_cast<T*>(raw);
+    // returned: number of failed attempts before the exchange succeeds (at most 3 are made).  A failed attempt must
+    // leave `expected` such that the next one succeeds (std::atomic<long double>: at most one failure).
+    int failed = 0;
+    while (failed < 3 && !a.compare_exchange_strong(e, x2)) {
+      ++failed;
+    }
+    out.ret = std::to_string(failed);
+    out.exp = Codec<T>::Print(e);
   } else if (n == "cew1" || n == "cew2" || n == "ces1" || n == "ces2") {
     const bool weak = n[2] == 'w';
     T e = x1;
@@ -422,6 +470,7 @@ void Dispatch(const Case& c) {
   else if (t == "p8") RunCase<double*>(c);
   else if (t == "f32") RunCase<float>(c);
   else if (t == "f64") RunCase<double>(c);
+  else if (t == "f80") RunCase<long double>(c);
   else if (t == "flag") RunFlag(c);
   else std::printf("{\"id\":%ld,\"ops\":[],\"err\":\"unknown type\"}\n", c.id);
 }
